@@ -333,6 +333,25 @@ class FnAnalysis(ExprMixin):
         if not outs or not ft2:
             return False
 
+    def st_Match(self, st):
+        self.ev(st.subject)
+        pre = dict(self.env)
+        outs = []
+        for case in st.cases:
+            self.env = dict(pre)
+            for n in ast.walk(case.pattern):  # names bound by the pattern alias (parts of) the subject
+                nm = getattr(n, "name", None)
+                if isinstance(nm, str):
+                    self.env[nm] = self.ev(st.subject)
+            if case.guard is not None:
+                self.ev(case.guard)
+            if self.block(case.body):
+                outs.append(self.env)
+        env = pre
+        for o in outs:
+            env = self.join_env(env, o)
+        self.env = env
+
     def st_FunctionDef(self, st):
         q = f"{self.fn.qualname}.<locals>.{st.name}"
         self.env[st.name] = AV(kind=A.FUNC, const=q)
